@@ -233,26 +233,26 @@ theorem toField_renders : ∀ (f : Field) (obj : GoVal) (atys : List (String × 
       rcases hcases with hph | ⟨hpe, hpn, hoo⟩ | ⟨hreach, htyped⟩
       · -- placeholder
         refine ⟨.prim k false true k.zeroSc, [], ?_, ?_⟩
-        · simp [primBody, hk, nullOfTy, hph, assignPrim, ToSt.set]
+        · simp [primBody, primFresh, hk, nullOfTy, hph, assignPrim, ToSt.set]
         · simp [rendersVal, hkind, hph, isNull, noUnknownFlat]
       · -- child of a nil embedded message
         have hsh := shadow_id info obj hoo
         by_cases hph : info.isPlaceholder = true
         · refine ⟨.prim k false true k.zeroSc, [], ?_, ?_⟩
-          · simp [primBody, hk, nullOfTy, hph, assignPrim, ToSt.set]
+          · simp [primBody, primFresh, hk, nullOfTy, hph, assignPrim, ToSt.set]
           · simp [rendersVal, hkind, hph, isNull, noUnknownFlat]
         · have hph' : info.isPlaceholder = false := by simpa using hph
           refine ⟨.prim k false true k.zeroSc, [], ?_, ?_⟩
           · rw [hsh]
             unfold primBody
-            simp only [hk, nullOfTy, hph', hpe, hpn]
+            simp only [hk, primFresh, nullOfTy, hph', hpe, hpn]
             by_cases hzv : (info.tf.zeroValue != "") = true
             · simp [hzv, assignPrim, hph', hpe, hpn, ToSt.set]
             · simp [hzv, assignPrim, hph', hpe, hpn, ToSt.set]
           · simp [rendersVal, hkind, hph', hpe, hpn, isNull, noUnknownFlat]
       · by_cases hph : info.isPlaceholder = true
         · refine ⟨.prim k false true k.zeroSc, [], ?_, ?_⟩
-          · simp [primBody, hk, nullOfTy, hph, assignPrim, ToSt.set]
+          · simp [primBody, primFresh, hk, nullOfTy, hph, assignPrim, ToSt.set]
           · simp [rendersVal, hkind, hph, isNull, noUnknownFlat]
         · have hph' : info.isPlaceholder = false := by simpa using hph
           have hne : info.parentIsOptionalEmbed = false ∨ info.oneOfName = "" := by
